@@ -252,6 +252,7 @@ func C02(ctx *core.Ctx) {
 	c02UnionGuard(ctx, cc)
 	c02DoubleWidth(ctx, cc)
 	c02ArgsNormalised(ctx, cc)
+	c02RequalifyEveryKind(ctx, cc, "C02.R20")
 	c10EnumMarker(ctx, cc, "C02.R15")
 	ctx.Rule("C02.R12", "typedef/type resolution is not cached across programs: a generator map field that memoises what the current program resolves is dropped where the program is switched", 1)
 	generatorCaches(ctx, cc, "C02.R12")
